@@ -251,29 +251,48 @@ def run(cx):
 
     # ---- rule 3: snapshot + subscribe in one critical section ------------------------------------
     with cx.ob("C04.3", "R-MUSTPASS", "subscribe(): snapshot and receiver are taken under one read guard") as ob:
-        b = cx.body(f"{INNER}::subscribe")
-        o = Origins(b)
-        ps = b.calls_to(f"{INNER}::peers")
-        ss = b.calls_to("tokio::sync::broadcast::Sender::subscribe")
-        ob.floor(ps, 1, "peers() in ActivePeersInner::subscribe", exact=True)
-        ob.floor(ss, 1, "Sender::subscribe in ActivePeersInner::subscribe", exact=True)
-        ob.require(is_param(arg_origin(ps[0], 0, o), "self") and mentions_field(arg_origin(ss[0], 0, o), "peer_event_sender")
-                   and mentions_param(arg_origin(ss[0], 0, o), "self"),
-                   "subscribe/same-self", "snapshot and subscription are not both taken from &self", b.path)
-        # returned tuple = (that receiver, that snapshot)
-        rets = [s for bl in b.blocks for s in bl["s"] if s["k"] == "assign" and s["lhs"] == 0]
-        ob.floor(rets, 1, "return value assignment in subscribe", exact=True)
-        t = o.of_rvalue(rets[0]["rv"])
-        ok = t[0] == "agg" and len(t[3]) == 2 and term_has_call(t[3][0], "broadcast::Sender::subscribe") and term_has_call(t[3][1], f"{INNER}::peers")
-        ob.require(ok, "subscribe/returns-pair", f"subscribe returns {show(t)}", b.path)
-        # called only through the read guard in ActivePeers::subscribe
-        check_callers(ob, prog, f"{INNER}::subscribe", [f"{API}::subscribe"], exact=1, what="ActivePeersInner::subscribe")
+        # Decided on the inlined view of ActivePeers::subscribe (whatever helpers it is split into): the lock is
+        # acquired exactly once on the way, the broadcast subscription and the key snapshot both happen below that one
+        # acquisition, each directly on the guarded struct's field (not on a clone that outlives the guard).
         w = cx.body(f"{API}::subscribe")
+        LOCKS = ("std::sync::poison::rwlock::RwLock::read", "std::sync::poison::rwlock::RwLock::write", "std::sync::poison::mutex::Mutex::lock",
+                 "RwLock::read", "RwLock::write", "RwLock::try_read", "RwLock::try_write", "Mutex::lock")
+        locks = call_sites_through(prog, w, lambda c: name_matches(c.fn, LOCKS))
+        subs = call_sites_through(prog, w, lambda c: name_matches(c.fn, "tokio::sync::broadcast::Sender::subscribe"))
+        keys = call_sites_through(prog, w, lambda c: name_matches(c.fn, ("HashMap::keys", "HashMap::iter", "HashMap::values")))
+        ob.require(len(locks) == 1 and name_matches(locks[0][0].fn, ("RwLock::read", "std::sync::poison::rwlock::RwLock::read")), "subscribe/one-read-guard",
+                   f"ActivePeers::subscribe acquires the peer-map lock {len(locks)} times ({[' > '.join(x.split('::')[-1] for x in ch) for _, ch in locks]}): "
+                   "a change between two acquisitions is in neither the snapshot nor the receiver", w.path)
+        ob.require(len(subs) == 1, "subscribe/one-subscription", f"{len(subs)} broadcast subscriptions reachable from ActivePeers::subscribe", w.path)
+        ob.require(len(keys) == 1, "subscribe/one-snapshot", f"{len(keys)} map snapshots reachable from ActivePeers::subscribe", w.path)
+        if len(locks) == 1 and len(subs) == 1 and len(keys) == 1:
+            for (c, chain), fld, what in ((subs[0], "peer_event_sender", "subscription"), (keys[0], "connections", "snapshot")):
+                b = prog.bodies[chain[-1]]
+                r = arg_origin(c, 0, Origins(b))
+                direct = mentions_field(r, fld) and not term_has_call(r, "Clone::clone") and \
+                    (mentions_param(r, "self") or term_has_call(r, f"{API}::inner") or term_has_call(r, "RwLock::read"))
+                ob.require(direct, f"subscribe/{what}-on-guarded-field", f"{what} is taken from {show(r)[:100]} in {b.path}", b.path, b.loc(c.bb))
+                # the helper that touches the field is entered below the lock acquisition: either it is the body that
+                # locks, or it takes &ActivePeersInner (only obtainable through the guard)
+                if chain[-1] != locks[0][1][-1] and chain[-1] != w.path:
+                    ob.require(chain[-1].startswith(INNER + "::"), f"subscribe/{what}-under-guard", f"{what} happens in {chain[-1]}, not a method of the guarded struct", b.path)
+        # returned pair = (that receiver, that snapshot)
         wo = Origins(w)
-        c = w.calls_to(f"{INNER}::subscribe")[0]
-        core = strip_identity(arg_origin(c, 0, wo))
-        ob.require(core[0] == "call" and name_matches(core[1], f"{API}::inner"), "subscribe/on-read-guard",
-                   f"ActivePeers::subscribe calls inner subscribe on {show(core)}", w.path)
+        ret = wo.of_local(0)
+        produced = set()
+        for x in walk(ret):
+            if x[0] == "call":
+                produced.add(strip_generics(x[1]))
+        reach_ret = set()
+        for n in produced:
+            for q in prog.bodies:
+                if name_matches(q, n) and prog.bodies[q].kind != "Closure":
+                    reach_ret |= set(prog.reachable_bodies([q]))
+        names = produced | reach_ret
+        both = all(any(name_matches(c.fn, t) for n in list(names) + [w.path] if n in prog.bodies for c in prog.bodies[n].calls()) for t in ("broadcast::Sender::subscribe", ("HashMap::keys", "HashMap::iter", "HashMap::values")))
+        ob.require(both, "subscribe/returns-pair", f"ActivePeers::subscribe returns {show(ret)[:120]}", w.path)
+        # NetworkInner::subscribe hands out exactly that pair
+        check_callers(ob, prog, "tokio::sync::broadcast::Sender::subscribe", [f"{API}::subscribe", f"{INNER}::subscribe"], crates=["anemo"], floor=1, what="broadcast::Sender::subscribe")
         # peers(): keys of the map
         pb = cx.body(f"{INNER}::peers")
         po = Origins(pb)
